@@ -227,7 +227,9 @@ def seg_unit(v, seg, tier, res):
     for idx, fr in rows:
         if fr.kind == 'leaf' and fr.datatype == 'varies':
             for shape, rep in (('varies-2comp', {1: 'a', 2: 'b'}), ('varies-empty-middle', {1: 'a', 3: 'c'}), ('varies-empty-first', {2: 'b'}),
-                               ('varies-sub', {1: {1: 'a', 2: 'b'}, 2: 'c'}), ('varies-empty-first-sub', {2: {2: 's'}})):
+                               ('varies-sub', {1: {1: 'a', 2: 'b'}, 2: 'c'}), ('varies-empty-first-sub', {2: {2: 's'}}),
+                               ('varies-12comp', {j: 'c%d' % j for j in range(1, 13) if j != 3}),
+                               ('varies-11sub', {1: 'a', 2: {k: 's%d' % k for k in range(1, 12) if k != 4}})):
                 check_segment_text(res, v, seg, segtext({idx: [rep]}), shape, rank=3)
                 check_segment_text(res, v, seg, segtext({idx: [rep, rep]}), shape + '-2reps', rank=3)
     # (c) field and component entry points
@@ -281,7 +283,10 @@ def seg_unit(v, seg, tier, res):
         if host is None:
             res.dims['segments listed by no concrete structure'] += 1
         else:
-            sets = [None] + CUSTOM_SETS
+            # plus one set that differs from the default one in a single role (rotating over the segments): the header and
+            # the rest of the message must not take a standard-looking MSH-2 (or MSH-1) as "all standard"
+            one = ONE_ROLE_SETS[sum(map(ord, seg)) % len(ONE_ROLE_SETS)]
+            sets = [None] + CUSTOM_SETS + [one]
             for cset in sets:
                 e = dict(ec_n) if cset is None else dict(cset, SEGMENT='\r', GROUP='\r')
                 text = refmodel.enc_message([('MSH', msh_fields(v, host)), (seg, allf)], e)
@@ -338,6 +343,9 @@ def check_message_text(res, v, seg, host, text, ec, fg, shape):
 # custom delimiter sets: disjoint from every character used by the literals (digits . + - ( ) letters)
 CUSTOM_SETS = [{'FIELD': '!', 'COMPONENT': '$', 'SUBCOMPONENT': '*', 'REPETITION': '?', 'ESCAPE': '@'},
                {'FIELD': ':', 'COMPONENT': '[', 'SUBCOMPONENT': ']', 'REPETITION': '{', 'ESCAPE': '^'}]
+
+_DEF = {'FIELD': '|', 'COMPONENT': '^', 'SUBCOMPONENT': '&', 'REPETITION': '~', 'ESCAPE': '\\'}
+ONE_ROLE_SETS = [dict(_DEF, **{role: ch}) for role, ch in (('FIELD', '!'), ('COMPONENT', '$'), ('SUBCOMPONENT', '*'), ('REPETITION', '?'), ('ESCAPE', '@'))]
 
 ESC_TOKENS = ['a', '\\F\\', '\\E\\', '\\H\\', '\\R\\']
 
